@@ -53,10 +53,11 @@ HC_ASSUME = [
 ]
 
 def hc_prop(pid, runs, rule, level_text, technique, floor, note="", require=None, also=None):
+    # also: signatures raised by monitors of other properties that this property's statement covers too
     PROPS[pid] = dict(
         runs=runs, rule=rule, level_text=level_text, technique=technique,
         level_note=note or "Trusted: virtual clock/rng shims, the reference wire decoder, the boundary model in harness/src/model.rs. Held only on the scenarios listed in the evidence.",
-        floor=floor, require_counters=require or [], assumptions=HC_ASSUME, also_claims=also or [])
+        floor=floor, require_counters=require or [], assumptions=HC_ASSUME, also_sigs=also or [])
 
 GEN = ("Scenarios are drawn from seeded generators (window 4..4096, nonces incl. near 2^32/2^20 wrap, 1..64 channels, four modes, "
        "payload classes incl. fragment-boundary sizes, rates, receive allocations, step cadences 0.1..200 ms, per-direction latency "
@@ -129,7 +130,8 @@ hc_prop("C04",
     GEN + "frag-len: ONE packet per scenario, every length 0..=5794 exhaustively (then sampled lengths up to 1 MB), fragments duplicated / reordered / partly lost and resent. frag: multi-fragment heavy mixes with rates that cut packets across flushes. frag-twin: same scenario twice, second run with datagrams appended whose header disagrees with the genuine fragments of the same packet (forward link ideal so the first fragment seen is genuine). non-trivial: multi-fragment packet delivered after >= 1 duplicate / delayed / lost fragment (frag-len: delivered), twin: >= 1 conflicting datagram injected.",
     "Wire monitor: no emitted frame > 1472 bytes; every datagram equals the right slice of its packet; byte-exact delivery (C01 oracle); single packets delivered exactly once; twin-run equality of deliveries under conflicting fragments. Length sweep is exhaustive for 0..=4*1448+2, everything else sampled.",
     "wire-slicing monitor + exhaustive length sweep + twin-run differential",
-    dict(quick=1500, thorough=20000), require=["single_packet_multifrag", "conflicting_datagrams_injected", "delivered_multifrag"])
+    dict(quick=1500, thorough=20000), require=["single_packet_multifrag", "conflicting_datagrams_injected", "delivered_multifrag"],
+    also=["C01:delivered-altered", "C01:delivered-unknown", "C01:delivered-twice"])
 
 hc_prop("C06",
     lambda tier: [dict(family="hostile-rx", n=T(tier, 48, 1500), params={"batch": 20, "frames": T(tier, 2000, 6000)}),
